@@ -83,9 +83,14 @@ func Harness_C06_ContentAddress() {
 		verifrt.Reach("invalid")
 	}
 	verifrt.Assert(ok == verifrt.JSONEqual(v, w), "IsValidModelMultihash(v, hash(w)) succeeds iff v and w are equal JSON values")
-	// a hash computed with the other algorithm is still validated with its own prefix
-	other := []uint{0x13, 0x12}[verifrt.Choose("alg", 1)]
-	_ = other
+	// single-point modification of the hash text: one letter behind the prefix changes case
+	if hv, herr := CalculateModelMultihash(v, code); herr == nil {
+		if hc, changed := verifrt.SwapCase(hv); changed {
+			verifrt.Assert(IsValidModelMultihash(v, hc) != nil, "a hash text with one letter's case changed is not the value's hash")
+			c1, e1 := GetMultihashCode(hc)
+			verifrt.Assert(e1 == nil && c1 == uint64(code), "a changed digest leaves the reported code as the prefix says")
+		}
+	}
 	codes := []uint{verifrt.AnyUint("c0"), verifrt.AnyUint("c1"), verifrt.AnyUint("c2")}
 	n := verifrt.Choose("ncodes", 4)
 	in := false
